@@ -13,6 +13,7 @@ import OFV.Proofs.C04OneBody
 import OFV.Proofs.C04TwoBodyAll
 import OFV.Proofs.C04Iop2
 import OFV.Proofs.C04Dch
+import OFV.Proofs.C04Rev4
 
 namespace OFV.C04
 open OFV OFV.Spec OFV.Model OFV.Model.C04 OFV.Sem
@@ -194,6 +195,24 @@ theorem jw_dch_sound (tol : Rat) (n : Nat) (const : GQ) (one two : List GQ)
       = GV.coeff (applyOp .fermion (Spec.C04.dchOp n const one two) [m]) [x] :=
   jwDCH_sound tol n const one two h1 h2 hok m x
 
+/-- **`reverse_jordan_wigner` is sound**: for every QubitOperator `Q` (any number of strings, each a canonical
+Pauli string as stored by `QubitOperator`), the FermionOperator built by the `while` loop — `Z_j ↦ 1 − 2 a†_j a_j`,
+`X_j, Y_j ↦ (a†_j ± a_j)` times the Z-string absorbed into the working term, highest qubit first — acts on
+every Fock basis state exactly like `Q` acts on the same bit mask, on every exact run. -/
+theorem reverse_jw_sound (tol : Rat) (htol : tol * tol ≤ 1 / 4) (Q : Model.Op)
+    (hQ : ∀ tc ∈ Q, SortedQ tc.1 ∧ (∀ f ∈ tc.1, f.2 < 4)) (hok : reverseJWOk tol Q = true) (m x : Nat) :
+    GV.coeff (applyOp .fermion (reverseJW tol Q) [m]) [x] = GV.coeff (applyOp .qubit Q [m]) [x] :=
+  reverseJW_sound tol htol Q hQ hok m x
+
+/-- **`reverse_jordan_wigner` inverts `jordan_wigner`** as operators (hence "up to normal ordering"): for every
+FermionOperator `A`, `reverse_jw (jw A)` acts on every basis state like `A`, on every exact run of both. -/
+theorem reverse_jw_left_inverse (tol : Rat) (htol : tol * tol ≤ 1 / 4) (A : Model.Op)
+    (hA : ∀ tc ∈ A, ∀ f ∈ tc.1, f.2 ≤ 1) (hok1 : jwFermionOk tol A = true)
+    (hok2 : reverseJWOk tol (jwFermion tol A) = true) (m x : Nat) :
+    GV.coeff (applyOp .fermion (reverseJW tol (jwFermion tol A)) [m]) [x] = GV.coeff (applyOp .fermion A [m]) [x] := by
+  rw [reverse_jw_sound tol htol _ (jwFermion_canon_valid tol htol A) hok2 m x]
+  exact jw_exact tol htol A hA hok1 m x
+
 /-! ### non-vacuity -/
 
 /-- the threshold the driver runs with satisfies the hypothesis of the theorems -/
@@ -255,11 +274,16 @@ example : jwDCHOk Generated.eqTolerance 3 ⟨mkRat 3 4, 0⟩
 /-! ### statements of C04 that are NOT proved here (covered by correspondence + Spec oracle only; see
 `OPEN_STATEMENTS` in harness/c04.py)
 
-* `reverse_jw_sound` (open):  `∀ Q m x, ⟨x| reverseJW tol Q |m⟩_fermion = ⟨x| Q |m⟩_qubit`, and its corollary
-  `reverse_jw_left_inverse`: `normal_ordered (reverse_jw (jw A)) = normal_ordered A`.
 * the exact-regime hypotheses (`jw…Ok`) cannot be dropped: `+=` deletes values below `EQ_TOLERANCE`.
 * linearity / multiplicativity / compatibility with Hermitian conjugation of `jordan_wigner` as separate
   statements (they follow from `jw_exact` + the homomorphism theorems of the Spec semantics, C01).
 * the dual-basis jellium helpers (floating point; no Model). -/
+
+/-- exact-regime hypotheses of `reverse_jw_left_inverse` on a concrete operator (kernel-evaluated) -/
+example :
+    let A : Model.Op := [([(2, 1), (0, 0)], ⟨2, 0⟩), ([(1, 1)], ⟨0, mkRat 1 2⟩)]
+    jwFermionOk Generated.eqTolerance A = true
+      ∧ reverseJWOk Generated.eqTolerance (jwFermion Generated.eqTolerance A) = true := by
+  decide +kernel
 
 end OFV.C04
